@@ -63,9 +63,9 @@ CLAIMS = {
  "C19": dict(design="4/C19", text="Both feature configurations are built from the current tree; every deterministic output (encodings of all types, key derivation incl. facade and seeded generators, signatures, PoPs, aggregates of up to 17 signers with verdicts, share recombination, challenges, generators, hash outputs, pairing bytes, wide reduction) is hashed on both nodes and TLC validates equal-call => equal-output; randomized artefacts of each build are consumed by the other with the recorded result; model vectors replayed on the pure-Rust build.",
              note="both builds run on this machine; value classes and seeds bounded",
              tech="two-node Interop trace (blst / rust builds) validated by TLC; cross-consumption of randomized artefacts; replay on the second backend"),
- "C20": dict(design="4/C20", text="TLC exhausts all interleavings of 2 processes x 2 threads of the Rng model with per-call fresh-entropy generators (NoReuse, FreshGenerators) and refutes four faulty seeding disciplines (clock-seeded, shared static, per-thread counters, fork-inherited); every randomized entry point is called N times with identical arguments on T threads in P simultaneously started processes, logging observables injective in the ephemerals plus the fingerprint of every generator (hook); TLC validates the log as Draw actions enabled only for never-seen values.",
+ "C20": dict(design="4/C20", text="TLC exhausts all interleavings of 2 processes x 2 threads of the Rng model with per-call fresh-entropy generators (NoReuse, FreshGenerators) and refutes six faulty seeding disciplines (clock-seeded, shared static, per-thread counters, fork-inherited, cloned-never-advanced, input-derived); the inductive form of NoReuse (spec/RngInd.tla) is discharged by Apalache for an unbounded number of calls, draws and steps; every randomized entry point is called N times with identical arguments on T threads in P simultaneously started processes, logging observables injective in the ephemerals plus the fingerprint of every generator (hook); TLC validates the log as Draw actions enabled only for never-seen values; a volume run of 2^19 (quick) / 2^22 (thorough) generator fingerprints merged across processes must be all distinct.",
              note="OS entropy modelled as an unbounded pool of distinct seeds; N, T, P bounded (48 x 4 x 2 quick; 512 x 16 x 4 thorough); 96-bit hash prefixes stand for the observables",
-             tech="TLA+ interleaving model checked by TLC with refuted faulty variants; TLC trace validation of multi-thread / multi-process recordings through a generator hook"),
+             tech="TLA+ interleaving model checked by TLC with refuted faulty variants; inductive invariant discharged by Apalache; TLC trace validation of multi-thread / multi-process recordings through a generator hook"),
 }
 
 def main():
